@@ -89,6 +89,7 @@ type Node struct {
 	AuthPass     string
 	ConnsSeen    int
 	DialTimes    []time.Duration
+	Joined       bool // added to the cluster after the proxy started
 }
 
 type BackendConn struct {
@@ -212,6 +213,13 @@ func (c *BackendConn) handle(raw []byte) {
 	}
 	hdr := frm.Header
 	stream := hdr.StreamId
+	if c.Started && hdr.Version != c.Version {
+		// as Cassandra does: every frame on a connection must use the version of its STARTUP
+		w.Stat("backend.version_mismatch")
+		w.UnexpectedAtBackend = append(w.UnexpectedAtBackend, fmt.Sprintf("%s: %s frame with protocol version %d on a connection negotiated for version %d", c, hdr.OpCode, hdr.Version, c.Version))
+		c.replyNow(stream, &message.ProtocolError{ErrorMessage: fmt.Sprintf("Invalid message version. Got %d but previous messages on this connection had version %d", hdr.Version, c.Version)})
+		return
+	}
 	switch msg := frm.Body.Message.(type) {
 	case *message.Options:
 		w.Stat("backend.options")
